@@ -684,6 +684,11 @@ func (f *SQLFormatter) formatExpression(expr ast.Expression) error {
 		if err := f.formatExpression(e.Left); err != nil {
 			return err
 		}
+		if e.Not && e.Operator != "NOT" {
+			// negated pattern operators (NOT ILIKE, NOT SIMILAR TO, "not like" in any
+			// letter case other than the one matched above): the negation is a flag
+			f.builder.WriteString(" NOT")
+		}
 		f.builder.WriteString(" " + e.Operator + " ")
 		if err := f.formatExpression(e.Right); err != nil {
 			return err
